@@ -17,7 +17,7 @@ func Main() {
 	r.Cases("random", r.N(400, 8000), core.Opts{Procs: 16, StallSec: 300}, func(c *core.Case) { netsim.RandomCase(c, "C01", 7, 400) })
 	if !r.Quick() {
 		// E-live: real reactors, switches and tickers (no race instrumentation here; C03's thorough tier runs it under -race)
-		r.Cases("live", 6, core.Opts{Procs: 3, StallSec: 1500, InconclusiveFatal: []string{"lib/p2p.Connect2Switches"}}, func(c *core.Case) { netsim.LiveCase(c, "C01") })
+		r.Cases("live", 24, core.Opts{Procs: 4, StallSec: 1500, InconclusiveFatal: []string{"lib/p2p.Connect2Switches"}}, func(c *core.Case) { netsim.LiveCase(c, "C01") })
 	}
 	r.Finish()
 }
